@@ -200,6 +200,7 @@ func runC11(c *kit.Ctx) {
 
 	// ---- K1 ---------------------------------------------------------------
 	c.StartRule("K1", "every index/slice/fixed-width read/make on the decode surface is within len()", 40)
+	scanResultsFullyPopulated(c)
 	c.Table("C11.K1/K4: multi.get(i) requires 1 <= i <= len(m.calls) and m.calls[i-1] != nil; established for peer-chosen indices by multi.DeserializeCellBlocks validating every ResultOrException before multi.returnResults runs on the same message (re-checked: validation on every loop path; receive routes every multi response through the decoder)")
 	for _, f := range surface {
 		for _, o := range eng.Obligations(f) {
@@ -305,6 +306,68 @@ func runC11(c *kit.Ctx) {
 			} else {
 				c.Bad(f, "panic", posOf(pn), "explicit panic reachable from peer-controlled data: "+why, "")
 			}
+		})
+	}
+
+	// a write to a map that may be nil panics: maps kept in struct fields that are only allocated under
+	// a condition are written under that condition (or a nil test)
+	for _, f := range surface {
+		kit.Instrs(f, func(in ssa.Instruction) {
+			mu, ok := in.(*ssa.MapUpdate)
+			if !ok {
+				return
+			}
+			_, fld := kit.FieldRead(kit.Root(mu.Map))
+			if fld == nil {
+				return
+			}
+			// can the field hold nil? some store to it carries a nil (a conditionally made map)
+			var allocCalls []string
+			mayBeNil := false
+			for _, a := range c.P.FieldAccesses(fld) {
+				st, ok := a.Instr.(*ssa.Store)
+				if !a.Write || !ok {
+					continue
+				}
+				v := kit.Root(st.Val)
+				ph, isPhi := v.(*ssa.Phi)
+				if !isPhi {
+					if kit.IsNilConst(v) {
+						mayBeNil = true
+					}
+					continue
+				}
+				for i, e := range ph.Edges {
+					if kit.IsNilConst(kit.Root(e)) {
+						mayBeNil = true
+						continue
+					}
+					for _, ft := range kit.EdgeFacts(ph.Block().Preds[i], ph.Block()) {
+						if cc, ok := ft.Cond.(*ssa.Call); ok && ft.Pol {
+							allocCalls = append(allocCalls, kit.CalleeName(cc))
+						}
+					}
+				}
+			}
+			if !mayBeNil {
+				return
+			}
+			guarded := false
+			for _, ft := range kit.FactsAt(mu.Block()) {
+				if cc, ok := ft.Cond.(*ssa.Call); ok && ft.Pol {
+					for _, n := range allocCalls {
+						if n == kit.CalleeName(cc) {
+							guarded = true
+						}
+					}
+				}
+				if cmp, ok := kit.CanonCmp(ft.Cond, ft.Pol); ok && cmp.Op == token.NEQ && kit.IsNilConst(cmp.Y) {
+					if _, fv := kit.FieldRead(kit.Root(cmp.X)); fv == fld {
+						guarded = true
+					}
+				}
+			}
+			c.Check(guarded, f, "map-write "+fld.Name(), posOf(mu), "written only under the condition it is allocated under (or a nil test)", "the map "+fld.Name()+" is only allocated under a condition of the request, but written here whenever the response carries the data: a server that sends it unasked makes the client panic (assignment to entry in nil map)")
 		})
 	}
 
